@@ -58,8 +58,8 @@ def decorate(rng, kinds):
             while f"{k}.{i}" in used or rng.random() < 0.2:
                 i += 1
             name = f"{k}.{i}" if rng.random() < 0.8 else f"{k}.s{i}"
-            if name in used:
-                name = f"{k}.{i}.x"
+            while name in used:  # step names are dictionary keys: always distinct
+                name = name + ".x"
         used.add(name)
         out.append(name)
     return out
@@ -145,6 +145,9 @@ def check_case(ctx, report, ops, tbl_run, tbl_check, label):
                     if a["trace"] != b["spec_trace"]:
                         report.fail("trace_once_per_scale_in_order", "run_trace", case, a,
                                     "run callbacks differ from: each step once per processed scale, in order, left then right")
+                    if a.get("foreign_config"):
+                        report.fail("trace_once_per_scale_in_order", "step_object_from_another_configuration", case, a,
+                                    f"steps executed with a step object built from another step's configuration: {a['foreign_config']}")
                     if any(e[4] for e in a["trace"]) != any(n.split(".")[0] == "validation" for n in op["names"]):
                         report.fail("trace_right_iff_validation", "right", case, a)
                     if a["machine"]["state"] != "begin" or a["machine"]["triggers"]:
@@ -210,6 +213,44 @@ def run(ctx, report, status):
         check_case(ctx, report, make_history(names, n, outcomes), tbl_run, tbl_check, "rnd")
         report.count(f"len_{min(len(names), 9)}")
         report.count(f"scales_{effective_scales(names, n)}")
+    mixed_history(ctx, report, tbl_run, tbl_check)
+
+
+def mixed_history(ctx, report, tbl_run, tbl_check):
+    """histories on ONE machine that mix two different accepted pipelines: check p1, run p1, check p2, run p2, run p1 ...
+    (each run is preceded by a check of the same pipeline somewhere earlier and the machine was last checked with it)"""
+    rng = ctx.rng
+    for _ in range(ctx.n(150, 2000)):
+        ps = []
+        while len(ps) < 2:
+            kinds = random_kinds(rng)
+            names = decorate(rng, kinds)
+            ps.append(names)
+        ops = []
+        for _k in range(rng.randrange(2, 5)):
+            names = rng.choice(ps)
+            n = rng.choice([1, 2, 3])
+            ops.append({"op": "check", "names": names, "outcomes": []})
+            ops.append({"op": "run", "names": names, "num_scales": effective_scales(names, n)})
+        impl = ms.run_history(ops)
+        model = ctx.lean.call("C01.history", tbl_check=tbl_check, tbl_run=tbl_run, ops=ops)
+        report.case(key=("mixed", json.dumps(ops)), nontrivial=True)
+        for i, (op, a, b) in enumerate(zip(ops, impl, model)):
+            if a.get("skipped") or b.get("skipped"):
+                break
+            case = {"ops": ops, "index": i}
+            if (a["res"], a["trace"]) != (b["res"], b["trace"]):
+                report.disagree(f"mixed.{op['op']}", case, {"res": a["res"], "trace": a["trace"]}, {"res": b["res"], "trace": b["trace"]})
+            if a["res"] == "ok" and op["op"] == "run":
+                report.hit("trace_once_per_scale_in_order:mixed_history")
+                if a.get("foreign_config"):
+                    report.fail("trace_once_per_scale_in_order", "step_object_from_another_configuration", case, a,
+                                f"steps executed with a step object built from another step's configuration: {a['foreign_config']}")
+                # the right products are governed by the pipeline that was checked last
+                if a["trace"] != b["spec_trace"] and not b["machine"]["right_disp_map"]:
+                    report.fail("trace_once_per_scale_in_order", "run_trace", case, a)
+            if a["res"] != "ok":
+                break
 
 
 def decorate_plain(kinds):
